@@ -9,6 +9,7 @@ macro_rules! da_t { ($($n:ident: $t:ty, $l:literal, $u:literal;)*) => { paste::p
 	#[kani::proof] #[kani::unwind($u)] pub fn [<c14t_all_ $n>]() { h_decode_all::<$t, $l>() } )* } } }
 crate::fixed_types_q!(da_q);
 crate::fixed_types_t!(da_t);
+crate::fixed_types_wide!(da_t);
 
 /// decode_all on containers (concrete count prefix inside the slice is symbolic here: bulk path only)
 #[kani::proof]
